@@ -18,8 +18,11 @@ InitWith(s) == scn = s /\ pc = "start" /\ posted = [n |-> 0, ctype |-> "na", bod
 \* exactly one POST carrying the request document and the JSON content type
 DoPost == /\ pc = "start" /\ posted' = [n |-> 1, ctype |-> "application/json", body_ok |-> TRUE] /\ pc' = "posted"
         /\ UNCHANGED <<scn, outcome>>
+\* body "drop": the client has made one successful request before; now the server takes the request and closes the connection
+\* without answering.  The failure reaches the caller - and the request is NOT put on the wire a second time by the backend.
 Expected ==
-    IF scn.raise /\ scn.status >= 400 THEN "http_error"
+    IF scn.body = "drop" THEN "conn_error"
+    ELSE IF scn.raise /\ scn.status >= 400 THEN "http_error"
     ELSE IF scn.req = "notification" THEN "nothing"
     ELSE IF scn.body # "empty" /\ scn.ctype.base \notin AcceptedTypes THEN "deser"          \* unexpected response content type
     ELSE CASE scn.body = "empty"    -> "deser"                                               \* nothing to decode
